@@ -312,6 +312,7 @@ func (c04) Run(t *testing.T, scenario any, job *Job, res *Result) {
 		run := sc.Sync
 		run.Faults = []Fault{{Kind: f.Kind, Dir: f.Dir, At: at}}
 		var frozenErr error
+		fwt, fwerr := fstree.NewWatcher(droot)
 		s := RunSyncSession(t, &run, lay, SessionHooks{
 			OnStep:      func(step int) error { return ac.check() },
 			AfterFrozen: func() { frozenErr = ac.check() },
@@ -326,6 +327,22 @@ func (c04) Run(t *testing.T, scenario any, job *Job, res *Result) {
 			sc.Sync.Tr.Tape = nil
 			if len(s.Tape) <= 300000 {
 				sc.Sync.Tr.Tape = s.Tape
+			}
+		}
+		if fwerr == nil {
+			evs := fwt.Drain()
+			fwt.Close()
+			res.Probe("inotify_events", len(evs))
+			for _, ev := range evs {
+				if ev.Op != "delete" && ev.Op != "moved_from" {
+					continue
+				}
+				nw, listed := ac.want[ev.Path]
+				old, had := ac.before[ev.Path]
+				if listed && had && old.Type == nw.Type && (nw.Type == "f" || nw.Type == "l") && !parentReplaced(ac.before, ac.want, ev.Path) && !ac.opts.Delete {
+					fail("non-atomic", "unlinked-before-replacement:"+nw.Type+":"+receiverSide(sc.Sync.Arr), fmt.Sprintf("the kernel recorded %s of %q, which existed (%s) and is listed as %s", ev.Op, ev.Path, old.Type, nw.Type))
+					return
+				}
 			}
 		}
 		if s.Outcome == kernel.HookStop {
